@@ -435,6 +435,9 @@ def run(repo, check):
     share(check, repo, c17.rule_r3, 'C11.R6', 'decoder options never rewrite the section layouts later messages of the stream are read with (shared with C17.R3)')
     from sa.rules import c18
     share(check, repo, c18.rule_r7, 'C11.R7', 'a filter expression is evaluated with its query variables as the global namespace, on the message being tested (shared with C18.R7)')
+    from sa.rules import c13 as _c13
+    share(check, repo, _c13.rule_r3, 'C11.R8', 'the decoder a stream is scanned with keeps nothing from one message to the next (shared with C13.R3)',
+          keep=lambda f: 'Decoder' in f.key or 'Coder.' in f.key or 'Coder:' in f.key)
     check.assumptions = ['the scripted decoder stands for Decoder.process: it succeeds exactly at real message starts, reports the decoded span (C04.R4) and '
                          'raises a library error on damaged input (C12); the scanner logic is what is decided here',
                          'the boundaries found in a particular byte string are a runtime fact']
